@@ -145,6 +145,32 @@ def run_cases(args):
             finally:
                 p.write_bytes(orig); os.utime(p, ns=(st.st_atime_ns, st.st_mtime_ns))
             res["faults"].append({"file": rel, "fkind": "bitflip-inplace-same-handle", "verdict": v, "file_kind": kind_})
+        # … and a handle whose previous check *failed* (a later list was damaged), the damage repaired, then an earlier list —
+        # one the failed check had already verified — is altered: the next check on the same handle must fail again
+        lists = [r for r, k in files if k == "list"]
+        if len(lists) >= 2:
+            l1, l2 = root / lists[0], root / lists[-1]
+            o1, o2 = l1.read_bytes(), l2.read_bytes()
+            try:
+                h = Dataset(root)
+                l2.write_bytes(o2.replace(b"{", b"{ ", 1))
+                try:
+                    h.check(show_progressbar=False); first = "pass"
+                except Exception:  # noqa: BLE001
+                    first = "fail"
+                l2.write_bytes(o2)
+                l1.write_bytes(o1.replace(b"{", b"{ ", 1))
+                try:
+                    h.check(show_progressbar=False); v = "pass"
+                except Exception as e:  # noqa: BLE001
+                    v = f"{type(e).__name__}"
+                if first == "pass":
+                    v = "pass"            # (the first damage itself went unnoticed)
+            except Exception as e:  # noqa: BLE001
+                v = f"setup-failed:{type(e).__name__}: {str(e)[:80]}"
+            finally:
+                l1.write_bytes(o1); l2.write_bytes(o2)
+            res["faults"].append({"file": lists[0], "fkind": "altered-after-failed-check-same-handle", "verdict": v, "file_kind": "list", "with": lists[-1]})
         out.append(res)
         shutil.rmtree(root, ignore_errors=True)
     return out
